@@ -46,6 +46,22 @@ theorem row_mass (F : List α) (hM : 0 < maxOf F) (hm : 0 < rowMax F) :
     unfold rowMax at hm ⊢
     field_simp
 
+/-- **Total mass**: the entries of a row add up to `c · (F(t_last) − F(t_0))` with the same constant
+`c = 1 / (max F · rowMax F)` as in `row_mass` — the prior mass between the first and the last grid
+point, nothing lost or counted twice. -/
+theorem row_total_mass (a : α) (F : List α) (hM : 0 < maxOf (a :: F)) (hm : 0 < rowMax (a :: F)) :
+    (fillRow (a :: F)).sum
+      = 1 / (maxOf (a :: F) * rowMax (a :: F)) * ((a :: F).getLast (List.cons_ne_nil _ _) - a) := by
+  have heq : fillRow (a :: F)
+      = 0 :: (diffs (a :: F)).map (fun d => 1 / (maxOf (a :: F) * rowMax (a :: F)) * d) := by
+    rw [fillRow_eq]
+    congr 1
+    apply List.map_congr_left
+    intro d _
+    unfold rowMax at hm ⊢
+    field_simp
+  rw [heq, List.sum_cons, zero_add, sum_map_mul_left', diffs_sum]
+
 /-- **Non-negative**: if the cdf values are non-decreasing along the grid, every entry is ≥ 0. -/
 theorem row_nonneg (F : List α) (hmono : F.Pairwise (· ≤ ·)) (hM : 0 < maxOf F) (hm : 0 < rowMax F) :
     ∀ x ∈ fillRow F, 0 ≤ x := by
